@@ -610,9 +610,9 @@ Section TakeSpec.
   Proof.
     induction rest as [|a more IH]; intros lst ff s c s' H; cbn [check_row_addrs_loop] in H.
     - inversion H; subst. repeat split; constructor.
-    - destruct (two64 <=? lst + 1); [discriminate H|].
-      apply IH in H. destruct H as [Hc [Hcons Hall]].
+    - apply IH in H. destruct H as [Hc [Hcons Hall]].
       apply andb_true_iff in Hc. destruct Hc as [Hc Hf]. apply andb_true_iff in Hc. destruct Hc as [Hc He].
+      apply andb_true_iff in He. destruct He as [_ He].
       apply N.eqb_eq in He. apply N.eqb_eq in Hf. repeat split; try assumption. constructor; assumption.
   Qed.
 
@@ -1146,14 +1146,12 @@ Proof.
   pose proof (N.div_mod a 4294967296 ltac:(lia)). pose proof (N.mod_lt a 4294967296 ltac:(lia)). lia.
 Qed.
 
+(* since repo commit 33efb4f check_row_addrs cannot fail, whatever the addresses *)
 Lemma check_loop_ok : forall (rest : list N) (lst ff : N) (s c : bool),
-  Forall (fun a => a + 1 < two64) (removelast (lst :: rest)) ->
   exists s' c', check_row_addrs_loop lst ff rest s c = Ok (s', c').
 Proof.
-  induction rest as [|a more IH]; intros lst ff s c H; [eexists; eexists; reflexivity|].
-  change (removelast (lst :: a :: more)) with (lst :: removelast (a :: more)) in H.
-  inversion H as [|? ? Hl H']; subst. cbn [check_row_addrs_loop].
-  destruct (N.leb_spec two64 (lst + 1)); [lia|]. apply IH. exact H'.
+  induction rest as [|a more IH]; intros lst ff s c; [eexists; eexists; reflexivity|].
+  cbn [check_row_addrs_loop]. apply IH.
 Qed.
 
 Lemma live_in_bounds (frs : list frag) (a : N) : addr_live frs a = true -> addr_in_bounds frs a = true.
@@ -1163,18 +1161,17 @@ Proof.
 Qed.
 
 (* no panic and no spurious error: every requested address names a physical slot, or belongs to no
-   fragment at all (those are dropped or reported as an error), and only the last may be u64::MAX *)
+   fragment at all (those are dropped or reported as an error), and at least one names a slot *)
 Theorem do_take_rows_total (frs : list frag) (addrs : list N) :
   table_wf frs ->
   (forall a, In a addrs -> addr_in_bounds frs a = true \/ find_frag frs (addr_frag a) = None) ->
   (exists a, In a addrs /\ addr_in_bounds frs a = true) ->
-  Forall (fun a => a + 1 < two64) (removelast addrs) ->
   (do_take_rows frs addrs false = Ok (filter (addr_live frs) addrs) \/
    (do_take_rows frs addrs false = Err /\ forallb (addr_in_bounds frs) addrs = false)).
 Proof.
-  intros [Hwf Hnd] Hall Hex Hlt. destruct addrs as [|start rest]; [destruct Hex as [a [[] _]]|].
+  intros [Hwf Hnd] Hall Hex. destruct addrs as [|start rest]; [destruct Hex as [a [[] _]]|].
   rewrite do_take_rows_unfold.
-  destruct (check_loop_ok rest start (addr_frag start) true true Hlt) as [s [c Hc]].
+  destruct (check_loop_ok rest start (addr_frag start) true true) as [s [c Hc]].
   cbn [check_row_addrs]. rewrite Hc. cbn [andb].
   assert (batch_of frs start (start :: rest) s c = take_spec frs (start :: rest) \/
           batch_of frs start (start :: rest) s c = Ok (filter (addr_live frs) (start :: rest))) as [E|E].
@@ -1193,9 +1190,6 @@ Proof.
   destruct (do_take_rows_total frs addrs W) as [E|[_ E]].
   - intros a Ha. left. apply Hb. exact Ha.
   - destruct addrs as [|a r]; [congruence|]. exists a. split; [left; reflexivity | apply Hb; left; reflexivity].
-  - apply Forall_forall. intros a Ha. apply (in_bounds_lt frs a (proj1 W)). apply Hb.
-    clear -Ha. induction addrs as [|x xs IH]; [destruct Ha|]. destruct xs as [|y ys]; [destruct Ha|].
-    change (removelast (x :: y :: ys)) with (x :: removelast (y :: ys)) in Ha. destruct Ha as [<-|Ha]; [left; reflexivity | right; apply IH; exact Ha].
   - exact E.
   - exfalso. assert (forallb (addr_in_bounds frs) addrs = true) by (apply forallb_forall; exact Hb). congruence.
 Qed.
@@ -1282,9 +1276,7 @@ Proof.
   rewrite H. apply (filter_live_at_offsets frs (o :: rest) W).
 Qed.
 
-(* class of requests on which the code panics (debug build): an offset other than the last one is
-   out of range; its tombstone address u64::MAX reaches `last_offset + 1` in check_row_addrs *)
-(* Known_C15_oob_offset_not_last and take_agrees_with_scan are defined in Core/Model_Take.v *)
+(* Known_C15_all_offsets_oob and take_agrees_with_scan are defined in Core/Model_Take.v *)
 
 Lemma removelast_map {A B} (g : A -> B) (l : list A) : removelast (map g l) = map g (removelast l).
 Proof.
@@ -1293,65 +1285,64 @@ Proof.
   change (removelast (x :: y :: ys)) with (x :: removelast (y :: ys)). cbn [map]. f_equal. exact IH.
 Qed.
 
+Lemma existsb_false_forallb_negb {A} (p : A -> bool) (l : list A) :
+  existsb p l = false -> forallb (fun x => negb (p x)) l = true.
+Proof.
+  induction l as [|x xs IH]; intro H; [reflexivity|]. cbn [existsb forallb] in *.
+  apply orb_false_iff in H. destruct H as [H1 H2]. rewrite H1, (IH H2). reflexivity.
+Qed.
+
+(* Outside the class (some offset is in range, or a single offset is requested): the rows of the in-range
+   offsets in request order - out-of-range offsets are dropped - or an error due to an out-of-range offset. *)
 Theorem take_outside_known_class (frs : list frag) (offs : list N) :
-  table_wf frs -> scan_len frs < two64 -> Known_C15_oob_offset_not_last frs offs = false ->
+  table_wf frs -> scan_len frs < two64 -> Known_C15_all_offsets_oob frs offs = false ->
   take_agrees_with_scan frs offs.
 Proof.
   intros W Hov K. unfold take_agrees_with_scan, take.
   destruct offs as [|o0 rest0] eqn:Eoffs; [left; reflexivity|]. rewrite <- Eoffs in *.
-  assert (offs <> []) as Hne by (rewrite Eoffs; discriminate).
   rewrite (row_offsets_to_row_addresses_correct frs offs (proj1 W) Hov). unfold take_rows_by_addr.
   fold (at_offset frs). rewrite <- (filter_live_at_offsets frs offs W).
   replace (match offs with [] => Ok [] | _ :: _ => do_take_rows frs (map (at_offset frs) offs) false end)
     with (do_take_rows frs (map (at_offset frs) offs) false) by (rewrite Eoffs; reflexivity).
-  unfold Known_C15_oob_offset_not_last in K.
-  assert (forall o, In o (removelast offs) -> in_range frs o = true) as Hinit.
-  { intros o Ho. destruct (in_range frs o) eqn:R; [reflexivity|]. exfalso.
-    assert (existsb (fun o => negb (in_range frs o)) (removelast offs) = true) as C
-      by (apply existsb_exists; exists o; split; [exact Ho | rewrite R; reflexivity]). congruence. }
-  destruct (exists_last Hne) as [init [lst Elast]]. rewrite Elast in Hinit. rewrite removelast_last in Hinit.
-  destruct (in_range frs lst) eqn:Rl.
-  - (* every offset in range *)
-    left. apply do_take_rows_in_bounds; [exact W | rewrite Eoffs; discriminate|].
-    apply forallb_forall. intros a Ha. apply in_map_iff in Ha. destruct Ha as [o [<- Ho]].
-    apply live_in_bounds, (scan_live frs _ W), at_offset_in.
-    rewrite Elast in Ho. apply in_app_or in Ho. destruct Ho as [Ho|[<-|[]]]; [apply Hinit; exact Ho | exact Rl].
-  - destruct init as [|i0 init'].
-    + (* the single offset is out of range: the tombstone's fragment does not exist *)
-      right. cbn [app] in Elast. rewrite Elast. cbn [map]. rewrite (at_offset_oob frs lst Rl). split.
-      * rewrite do_take_rows_unfold. cbn [check_row_addrs check_row_addrs_loop]. unfold batch_of.
-        rewrite (tombstone_no_frag frs (proj1 W)). reflexivity.
-      * cbn [existsb]. rewrite Rl. reflexivity.
-    + destruct (do_take_rows_total frs (map (at_offset frs) offs) W) as [E|[E Hb]].
-      * intros a Ha. apply in_map_iff in Ha. destruct Ha as [o [<- Ho]].
-        rewrite Elast in Ho. apply in_app_or in Ho. destruct Ho as [Ho|[<-|[]]].
-        -- left. apply live_in_bounds, (scan_live frs _ W), at_offset_in, Hinit, Ho.
-        -- right. rewrite (at_offset_oob frs lst Rl). apply tombstone_no_frag, W.
-      * exists (at_offset frs i0). split.
-        -- apply in_map. rewrite Elast. left. reflexivity.
-        -- apply live_in_bounds, (scan_live frs _ W), at_offset_in, Hinit. left. reflexivity.
-      * rewrite removelast_map, Elast, removelast_last. apply Forall_forall. intros a Ha.
-        apply in_map_iff in Ha. destruct Ha as [o [<- Ho]]. apply (in_bounds_lt frs _ (proj1 W)).
-        apply live_in_bounds, (scan_live frs _ W), at_offset_in, Hinit, Ho.
-      * left. exact E.
-      * right. split; [exact E|]. apply existsb_exists. exists lst. split; [rewrite Elast; apply in_or_app; right; left; reflexivity|].
-        rewrite Rl. reflexivity.
+  destruct (existsb (in_range frs) offs) eqn:Ex.
+  - (* some offset is in range *)
+    apply existsb_exists in Ex. destruct Ex as [o1 [Ho1 R1]].
+    destruct (do_take_rows_total frs (map (at_offset frs) offs) W) as [E|[E Hb]].
+    + intros a Ha. apply in_map_iff in Ha. destruct Ha as [o [<- Ho]]. destruct (in_range frs o) eqn:R.
+      * left. apply live_in_bounds, (scan_live frs _ W), at_offset_in, R.
+      * right. rewrite (at_offset_oob frs o R). apply tombstone_no_frag, W.
+    + exists (at_offset frs o1). split; [apply in_map; exact Ho1|].
+      apply live_in_bounds, (scan_live frs _ W), at_offset_in, R1.
+    + left. exact E.
+    + right. split; [exact E|].
+      destruct (existsb (fun o => negb (in_range frs o)) offs) eqn:X; [reflexivity|]. exfalso.
+      assert (forallb (addr_in_bounds frs) (map (at_offset frs) offs) = true) as C; [|congruence].
+      apply forallb_forall. intros a Ha. apply in_map_iff in Ha. destruct Ha as [o [<- Ho]].
+      destruct (in_range frs o) eqn:R; [apply live_in_bounds, (scan_live frs _ W), at_offset_in, R|].
+      exfalso. assert (existsb (fun o => negb (in_range frs o)) offs = true) as C
+        by (apply existsb_exists; exists o; split; [exact Ho | rewrite R; reflexivity]). congruence.
+  - (* no offset is in range: outside the class there is exactly one offset *)
+    pose proof (existsb_false_forallb_negb _ _ Ex) as Hall.
+    unfold Known_C15_all_offsets_oob in K. rewrite Hall, andb_true_r in K.
+    rewrite Eoffs in K. cbn [length] in K. destruct rest0 as [|o1 rest1]; [|exfalso; apply N.leb_gt in K; cbn [length] in K; lia].
+    right. rewrite Eoffs in *. cbn [forallb existsb] in *. rewrite andb_true_r in Hall. apply negb_true_iff in Hall.
+    cbn [map]. rewrite (at_offset_oob frs o0 Hall). split.
+    + rewrite do_take_rows_unfold. cbn [check_row_addrs check_row_addrs_loop]. unfold batch_of.
+      rewrite (tombstone_no_frag frs (proj1 W)). reflexivity.
+    + rewrite Hall. reflexivity.
 Qed.
 
 Corollary take_in_range (frs : list frag) (offs : list N) :
   table_wf frs -> scan_len frs < two64 -> forallb (in_range frs) offs = true ->
   take frs offs = Ok (map (at_offset frs) offs).
 Proof.
-  intros W Hov H. rewrite forallb_forall in H.
+  intros W Hov H. pose proof H as H0. rewrite forallb_forall in H.
   assert (expected_rows frs offs = map (at_offset frs) offs) as <- by (unfold expected_rows; rewrite filter_all; [reflexivity | exact H]).
-  assert (forall l, (forall o, In o l -> in_range frs o = true) -> existsb (fun o => negb (in_range frs o)) l = false) as Hno.
-  { intros l Hl. apply not_true_is_false. intro C. apply existsb_exists in C. destruct C as [o [Ho C]]. rewrite (Hl o Ho) in C. discriminate C. }
   destruct (take_outside_known_class frs offs W Hov) as [E|[_ E]].
-  - unfold Known_C15_oob_offset_not_last. apply Hno. intros o Ho. apply H.
-    clear -Ho. induction offs as [|x xs IH]; [destruct Ho|]. destruct xs as [|y ys]; [destruct Ho|].
-    change (removelast (x :: y :: ys)) with (x :: removelast (y :: ys)) in Ho. destruct Ho as [<-|Ho]; [left; reflexivity | right; apply IH; exact Ho].
+  - unfold Known_C15_all_offsets_oob. destruct offs as [|o r]; [reflexivity|]. cbn [forallb] in *.
+    apply andb_true_iff in H0. destruct H0 as [R _]. rewrite R. cbn [negb andb]. apply andb_false_r.
   - exact E.
-  - rewrite (Hno offs H) in E. discriminate E.
+  - exfalso. apply existsb_exists in E. destruct E as [o [Ho C]]. rewrite (H o Ho) in C. discriminate C.
 Qed.
 
 (* take_scan: one batch per range; the batch of [s, e) is scan[s], .., scan[e-1] *)
@@ -1431,7 +1422,6 @@ Lemma take_rows_no_panic_wf (frs : list frag) (addrs : list N) :
   frags_wf frs = true ->
   (forall a, In a addrs -> addr_in_bounds frs a = true \/ find_frag frs (addr_frag a) = None) ->
   (exists a, In a addrs /\ addr_in_bounds frs a = true) ->
-  Forall (fun a => a + 1 < two64) (removelast addrs) ->
   (do_take_rows frs addrs false = Ok (filter (addr_live frs) addrs) \/
    (do_take_rows frs addrs false = Err /\ forallb (addr_in_bounds frs) addrs = false)).
 Proof. intro H. apply do_take_rows_total, frags_wf_P, H. Qed.
@@ -1439,7 +1429,7 @@ Proof. intro H. apply do_take_rows_total, frags_wf_P, H. Qed.
 Lemma take_by_offset_wf (frs : list frag) (offs : list N) :
   frags_wf frs = true -> scan_len frs < two64 ->
   (forall l, take frs offs = Ok l -> l = expected_rows frs offs) /\
-  (Known_C15_oob_offset_not_last frs offs = false -> take_agrees_with_scan frs offs) /\
+  (Known_C15_all_offsets_oob frs offs = false -> take_agrees_with_scan frs offs) /\
   (forallb (in_range frs) offs = true -> take frs offs = Ok (map (at_offset frs) offs)).
 Proof.
   intros H Hov. pose proof (frags_wf_P frs H) as W. repeat split.
@@ -1450,12 +1440,22 @@ Qed.
 
 Definition refuting_table : list frag := [{| f_id := 0; f_phys := 3; f_del := None |}].
 
-Lemma oob_offset_not_last_refuted :
-  exists frs offs, frags_wf frs = true /\ scan_len frs < two64 /\
-    Known_C15_oob_offset_not_last frs offs = true /\ ~ take_agrees_with_scan frs offs.
+(* the former class oob_offset_not_last (repaired by repo commit 33efb4f), kept as a regression:
+   an out-of-range offset that is not the last one is now dropped, the in-range rows come back *)
+Lemma oob_offset_not_last_regression :
+  take refuting_table [3; 0] = Ok [0] /\ take refuting_table [0; 3] = Err /\ take refuting_table [3] = Err /\
+  Known_C15_all_offsets_oob refuting_table [3; 0] = false /\ take_agrees_with_scan refuting_table [3; 0].
 Proof.
-  exists refuting_table, [3; 0]. repeat split; try (vm_compute; reflexivity).
-  assert (take refuting_table [3; 0] = Panic) as E by (vm_compute; reflexivity).
+  repeat split; try (vm_compute; reflexivity).
+  left. vm_compute. reflexivity.
+Qed.
+
+Lemma all_offsets_oob_refuted :
+  exists frs offs, frags_wf frs = true /\ scan_len frs < two64 /\
+    Known_C15_all_offsets_oob frs offs = true /\ ~ take_agrees_with_scan frs offs.
+Proof.
+  exists refuting_table, [3; 3]. repeat split; try (vm_compute; reflexivity).
+  assert (take refuting_table [3; 3] = Panic) as E by (vm_compute; reflexivity).
   unfold take_agrees_with_scan. rewrite E. intros [C|[C _]]; discriminate C.
 Qed.
 
